@@ -1,3 +1,53 @@
-From Flodym Require Import Base.ND.
-Theorem placeholder : True. Proof. exact I. Qed.
-Print Assumptions placeholder.
+(* C16 — dynamic stock models are causal, linear and independent across labels.  Statements only.
+   Label independence: the model of Model/Stocks.v computes ONE label column from that column's
+   driver, parameters and survival table only; the correspondence checks that every column of the
+   implementation's multi-label result equals this model (Corr/StocksC.v), i.e. no cross-talk. *)
+From Coq Require Import List Arith Field_theory.
+Import ListNotations.
+From Flodym Require Import Base.ND Model.Stocks Proofs.StockAlgebra Proofs.StockModel Proofs.StockRoundtrip.
+
+Section G.
+Variable F : Type.
+Variables (fO fI : F) (fadd fmul fsub : F -> F -> F) (fopp : F -> F) (fdiv : F -> F -> F) (finv : F -> F).
+Variable Fth : field_theory fO fI fadd fmul fsub fopp fdiv finv eq.
+Notation nthF := (nthF F fO).
+Notation nth2 := (nth2 F fO).
+
+(* causality, inflow-driven: the stock at step t is a sum over cohorts <= t only *)
+Theorem C16_inflow_driven_causal :
+  forall (sf : nat -> nat -> F) n, (forall t c, t < c -> sf t c = fO) -> forall w t, t < n ->
+  stock F fO fadd fmul sf n w t = ssum F fO fadd (S t) (fun c => fmul (w c) (sf t c)).
+Proof. intros; eapply stock_causal; eauto. Qed.
+
+(* causality, stock-driven: prescribed stocks that agree on the first k steps give the same first k inflows *)
+Theorem C16_stock_driven_causal :
+  forall sf b b' m k, k <= m -> (forall j, j < k -> nthF b j = nthF b' j) ->
+  forall j, j < k -> nthF (fs F fO fadd fmul fsub fdiv sf b m) j = nthF (fs F fO fadd fmul fsub fdiv sf b' m) j.
+Proof. intros; eapply fsolve_causal; eauto. Qed.
+
+(* linearity (superposition and scaling) *)
+Theorem C16_stock_linear_in_inflow :
+  forall sf n a b w1 w2 t,
+  stock F fO fadd fmul sf n (fun c => fadd (fmul a (w1 c)) (fmul b (w2 c))) t
+  = fadd (fmul a (stock F fO fadd fmul sf n w1 t)) (fmul b (stock F fO fadd fmul sf n w2 t)).
+Proof. intros; eapply stock_linear; eauto. Qed.
+
+Theorem C16_outflow_linear_in_inflow :
+  forall sf n dt a b w1 w2 t,
+  outflow F fO fI fadd fmul fsub fdiv sf n (fun c => fadd (fmul a (w1 c)) (fmul b (w2 c))) dt t
+  = fadd (fmul a (outflow F fO fI fadd fmul fsub fdiv sf n w1 dt t)) (fmul b (outflow F fO fI fadd fmul fsub fdiv sf n w2 dt t)).
+Proof. intros; eapply outflow_linear; eauto. Qed.
+
+Theorem C16_stock_driven_inflow_linear_in_stock :
+  forall sf (b1 b2 b3 : list F) a c m,
+  (forall j, j < m -> nthF b3 j = fadd (fmul a (nthF b1 j)) (fmul c (nthF b2 j))) ->
+  (forall j, j < m -> nth2 sf j j <> fO) ->
+  forall j, j < m -> nthF (fs F fO fadd fmul fsub fdiv sf b3 m) j
+                   = fadd (fmul a (nthF (fs F fO fadd fmul fsub fdiv sf b1 m) j)) (fmul c (nthF (fs F fO fadd fmul fsub fdiv sf b2 m) j)).
+Proof. intros; eapply fsolve_linear; eauto. Qed.
+End G.
+Print Assumptions C16_inflow_driven_causal.
+Print Assumptions C16_stock_driven_causal.
+Print Assumptions C16_stock_linear_in_inflow.
+Print Assumptions C16_outflow_linear_in_inflow.
+Print Assumptions C16_stock_driven_inflow_linear_in_stock.
